@@ -22,6 +22,7 @@ EXPLANATION = (
     "value; (W6) a definition that is a bare `$ref` alias becomes a newtype over the *referenced type itself* (the id the "
     "Reference carries), never over that type's inner type — which would shed the referenced type's constraints."
     " (W7) the inner schema of a `[T, null]` type is the outer one (`..schema`) with only metadata / instance_type / enum_values overridden; (T4, sources) the maxLength check is emitted for every stated bound (no filter before it), the minLength check may skip only 0."
+    " (W4, evaluated) convert_string is evaluated over max/min/pattern scenarios and answers the unconstrained String only when no bound is stated (minLength 0 aside); the arm-shaped W4 rule is advisory where that is possible; (W8, evaluated) the closure that builds the per-type schema of a `type` array, run for the seven types with marked inputs, keeps string+format for string, number+format for number/integer, object and array validation for theirs."
 )
 ASSUMPTIONS = ["serde enforces tuple arity, tags and scalar JSON types", "regress implements ECMA-262 patterns"]
 
